@@ -888,6 +888,40 @@ func (g *gen) invalid() {
 	c := g.c
 	r := c.Rng
 	typedNames := []string{"u16", "u32", "u64", "i16", "i32", "i64"}
+	// lists that START at 0 and END at len-1 (what a dense list looks like from its two ends) with a
+	// violation strictly inside: swapped, repeated and far-off interior entries
+	for rep := 0; rep < c.Pick(60, 400); rep++ {
+		ops := typedTable[typedNames[rep%6]]
+		n := 3 + r.Intn(40)
+		bad := make([]int32, n)
+		for i := range bad {
+			bad[i] = int32(i)
+		}
+		p := 1 + r.Intn(n-2)
+		switch r.Intn(4) {
+		case 0:
+			if p+1 < n-1 {
+				bad[p], bad[p+1] = bad[p+1], bad[p]
+			} else {
+				bad[p] = bad[p-1]
+			}
+		case 1:
+			bad[p] = bad[p-1]
+		case 2:
+			bad[p] = int32(n + 100 + r.Intn(1000))
+		default:
+			bad[p] = 0
+		}
+		elts := make([]string, n)
+		for i := range elts {
+			elts[i] = eltText(ops, g.bits())
+		}
+		line := fmt.Sprintf("arr.new %s %s %s", ops.name, joinI32(bad), joinS(elts, ","))
+		g.expect("C16 non-ascending rejected (list starts at 0 and ends at len-1)", nil, line, "err:not-ascending")
+		g.expect("C16 rejected input builds nothing (constructor returns nil)", []string{clip(line)}, "arr.dump", "nil")
+		c.Hit("invalid-not-ascending:dense-ends")
+		c.Case(line, true)
+	}
 	for rep := 0; rep < c.Pick(40, 400); rep++ {
 		ops := typedTable[typedNames[rep%6]]
 		base := g.indexSet([]string{"dense", "sparse", "density", "word-boundary"}[r.Intn(4)], false)
